@@ -4,6 +4,9 @@ R02.1/2  dispatch + stack effect (as R01.1/R01.2) for the 70 float / conversion 
 R02.3    descriptors: C operators on the slot's own float type, libm semantic classes, single-rounding
          conversions, bit-copy reinterpretation
 R02.4    min/max: decided over the finite abstraction {NaN, -inf, neg, -0, +0, pos, +inf}^2 x order
+R02.3b   every float row is additionally evaluated bit-exactly (values as bit patterns: NaN payloads, signalling NaNs quieted by format
+         conversions, signed zeros, correctly rounded arithmetic) on a grid of boundary operands against reference semantics
+         (sa/floateval.py) - second decision for accepted rows, refutation engine for unrecognised shapes
 R02.5    trapping / saturating truncation: exact boundary decision over the order abstraction induced by the
          guard constants and the specification bounds (every float adjacent to a breakpoint)
 """
